@@ -5,6 +5,6 @@ CONSTANTS
   Thorough = TRUE
 VIEW StView
 INVARIANTS HistoryOK ModuleAccountEmpty ThresholdInv
-PROPERTIES SpecSatisfiesLenses StepwiseIsRun 
+PROPERTIES SpecSatisfiesLenses StepwiseIsRun AttesterRulesRefine 
 ACTION_CONSTRAINT EmitEdge
 CHECK_DEADLOCK FALSE
